@@ -48,7 +48,7 @@ func (k Keeper) RequestModuleService(
 		return sdkerrors.Wrap(types.ErrUnknownRequestContext, reqContextID.String())
 	}
 
-	_, totalPrices, _, err := k.FilterServiceProviders(
+	providers, totalPrices, _, err := k.FilterServiceProviders(
 		ctx,
 		requestContext.ServiceName,
 		requestContext.Providers,
@@ -58,6 +58,11 @@ func (k Keeper) RequestModuleService(
 	)
 	if err != nil {
 		return err
+	}
+
+	// the module service must be eligible (available, fast enough, within the fee cap) like any other provider
+	if len(providers) == 0 {
+		return sdkerrors.Wrapf(types.ErrInvalidModuleService, "module service %s is not eligible for the request", moduleService.ServiceName)
 	}
 
 	if err := k.DeductServiceFees(ctx, consumer, totalPrices); err != nil {
